@@ -282,4 +282,26 @@ Section WithDigest.
     exists ob'. split; auto. apply in_flat_map. exists (n, o). split; auto. simpl.
     destruct I' as (L & _). rewrite L. left. reflexivity.
   Qed.
+  (* ---------------------------------------------------------------- add through a read-only handle *)
+  Lemma pre_fold_gone o items : forall w, lookup o (w_objs w) = None ->
+    lookup o (w_objs (fold_left (pre_step H) items w)) = None.
+  Proof.
+    induction items as [|i items IH]; intros w G; simpl; auto. apply IH. now apply check_gone.
+  Qed.
+
+  Lemma pre_fold_intact o items : forall w, IN w o -> IN (fold_left (pre_step H) items w) o.
+  Proof.
+    induction items as [|i items IH]; intros w I; simpl; auto. apply IH. now apply IN_step.
+  Qed.
+
+  Theorem add_ro_refused w v items :
+    snd (step H w (OAddRO v items)) = ORes 1 /\
+    (forall o, lookup o (w_objs w) = None -> lookup o (w_objs (fst (step H w (OAddRO v items)))) = None) /\
+    (forall o ob, Intact w o ob -> exists ob', Intact (fst (step H w (OAddRO v items))) o ob').
+  Proof.
+    simpl. unfold add_ro. split; auto.
+    destruct (match v with Some b => b | None => w_verify w end).
+    - split. intros o G. now apply pre_fold_gone. intros o ob I. apply pre_fold_intact. now exists ob.
+    - split; auto. intros o ob I. now exists ob.
+  Qed.
 End WithDigest.
